@@ -134,7 +134,7 @@ def run(c):
         ] + jobs + [
             lambda: model("AggregatesModel", "sym6", N=6, Sym="TRUE", Modes=NOSIGN, invariants=AGINV, workers=3),
             lambda: model("SmoothedModel", "sym5", N=5, Sym="TRUE", Modes=ALL, OmegaCodes="{23, 12}", workers=3),
-            lambda: model("BlockLiftModel", "gen2x2", N=2, BS=2, Modes="{0}", GenMasks="0..65535", workers=3),
+            lambda: model("BlockLiftModel", "gen2x2", N=2, BS=2, Modes="{0}", GenLo=0, GenHi=65535, workers=3),
             lambda: model("SmoothedModel", "kron2x3", N=2, BS=3, Modes=ALL, OmegaCodes="{12, 23}"),
         ]
 
